@@ -38,17 +38,45 @@ def _torch():
     return torch
 
 
-class _Hooks:
-    """Harness-side observation points (the repository is not modified): wraps run() and
-    save_full_state() of Optimizer and MCMC while a case executes."""
+def _site(e):
+    """Class.method of the innermost torchtree frame of an exception"""
+    tb = e.__traceback__
+    site = "?"
+    while tb is not None:
+        fr = tb.tb_frame
+        if "/torchtree/" in fr.f_code.co_filename:
+            slf = fr.f_locals.get("self")
+            site = (type(slf).__name__ + "." if slf is not None else
+                    os.path.basename(fr.f_code.co_filename) + ":") + fr.f_code.co_name
+        tb = tb.tb_next
+    return site
 
-    def __init__(self, reseed):
+
+def _supply(d, key):
+    """what-if experiment: put a placeholder under `key` into every nested state dictionary lacking it"""
+    if isinstance(d, dict):
+        if "id" in d and key not in d:
+            d[key] = 0
+        for v in d.values():
+            _supply(v, key)
+    elif isinstance(d, list):
+        for v in d:
+            _supply(v, key)
+
+
+class _Hooks:
+    """Harness-side observation points (the repository is not modified): wraps run(),
+    save_full_state() and load_state_dict() of Optimizer and MCMC while a case executes."""
+
+    def __init__(self, reseed, info=None):
         self.reseed = reseed          # int or None: torch.manual_seed at the checkpoint / at run() entry
-        self.saved = {}               # label -> snapshot taken right after save_full_state
+        self.info = info              # T5 tables (for the projection of live objects); None = no projection
+        self.saved = {}               # snapshot taken right after the save_full_state that is the interruption point
         self.entry = None             # snapshot on entry to run()
-        self.capture_at = None        # epoch whose checkpoint is the interruption point
-        self.copy_to = None           # where to copy the checkpoint written at capture_at
-        self.saves = []               # labels (self._epoch at save time, and the file written)
+        self.capture_at = None        # which save (1-based) is the interruption point
+        self.copy_to = None           # where to copy the checkpoint written there
+        self.saves = []               # (file written, _epoch at that moment, "iteration" written)
+        self.load = None              # what load_state_dict did on the restart
 
     def install(self):
         import torchtree.inference.mcmc.mcmc as M
@@ -74,20 +102,62 @@ class _Hooks:
             def save_full_state(obj, *a, **kw):
                 r = orig(obj, *a, **kw)
                 fn = a[0] if a else kw.get("checkpoint", getattr(obj, "checkpoint", None))
-                hooks.saves.append(fn)
+                hooks.saves.append((fn, obj._epoch, obj.state_dict().get("iteration")))
                 if hooks.copy_to is not None and hooks.capture_at is not None and \
                         len(hooks.saves) == hooks.capture_at:
                     shutil.copyfile(fn, hooks.copy_to)
                     hooks.saved = snapshot(obj)
+                    if hooks.info is not None:
+                        hooks.saved["proj"] = project(obj, hooks.info)
+                        hooks.saved["sd"] = pv_of(obj.state_dict())
                     if hooks.reseed is not None:
                         torch.manual_seed(hooks.reseed)
                 return r
             cls.save_full_state = save_full_state
             self._orig.append((cls, "save_full_state", orig))
 
+        def wrap_load(cls):
+            orig = cls.load_state_dict
+
+            def load_state_dict(obj, sd):
+                rec = hooks.load = dict(cls=type(obj).__name__)
+                if hooks.info is not None:
+                    rec["s0"] = project(obj, hooks.info)
+                try:
+                    r = orig(obj, sd)
+                except Exception as e:
+                    rec["error"] = dict(type=type(e).__name__, msg=str(e)[:200], site=_site(e))
+                    # what-if: with the missing key(s) supplied, is the rest of the state restored?
+                    if isinstance(e, KeyError) and hooks.info is not None:
+                        sd2 = copy.deepcopy(sd)
+                        supplied = []
+                        err = e
+                        for _ in range(4):
+                            k = err.args[0] if err.args else None
+                            if not isinstance(k, str):
+                                break
+                            supplied.append(k)
+                            _supply(sd2, k)
+                            try:
+                                orig(obj, sd2)
+                                rec["supplied"] = supplied
+                                rec["s1_whatif"] = project(obj, hooks.info)
+                                break
+                            except KeyError as e2:
+                                err = e2
+                            except Exception:
+                                break
+                    raise
+                if hooks.info is not None:
+                    rec["s1"] = project(obj, hooks.info)
+                return r
+            cls.load_state_dict = load_state_dict
+            self._orig.append((cls, "load_state_dict", orig))
+
         for cls in (O.Optimizer, M.MCMC):
             wrap_run(cls)
             wrap_save(cls)
+            wrap_load(cls)
 
     def remove(self):
         for cls, name, orig in self._orig:
@@ -358,7 +428,7 @@ def _flat(v):
     return [v]
 
 
-def run_case(case):
+def run_case(case, info=None):
     """-> observation dict (JSON-serialisable)."""
     N, K = case["N"], case["K"]
     d = os.path.join(WORK, "runs", case["name"])
@@ -374,7 +444,7 @@ def run_case(case):
     cfgA = os.path.join(d, "A", "config.json")
     json.dump(config_for(case, os.path.join(d, "A", "ck.json"), os.path.join(d, "A", "log.tsv"), N + K,
                          1 if is_opt else N), open(cfgA, "w"))
-    h = _Hooks(reseed)
+    h = _Hooks(reseed, info)
     h.capture_at = N if is_opt else 1
     h.copy_to = ck_at_n
     h.install()
@@ -398,7 +468,7 @@ def run_case(case):
         obs["plain_run_error"] = "no checkpoint written at N"
         return obs
     obs["saved"] = h.saved
-    obs["A_saves"] = [os.path.basename(s) for s in h.saves]
+    obs["A_saves"] = [(os.path.basename(f), e, it) for f, e, it in h.saves]
     if is_opt:
         obs["A_traj"] = [(lab, ps) for lab, ps, _ in read_ckpts(os.path.join(d, "A"), "ck")]
         obs["A_final_state"] = read_ckpts(os.path.join(d, "A"), "ck")[-1][2]
@@ -409,21 +479,19 @@ def run_case(case):
     cfgC = os.path.join(d, "C", "config.json")
     json.dump(config_for(case, os.path.join(d, "C", "ck.json"), os.path.join(d, "C", "log.tsv"), N + K,
                          1 if is_opt else 10 ** 6), open(cfgC, "w"))
-    h = _Hooks(reseed)
+    h = _Hooks(reseed, info)
     h.install()
     try:
         try:
             run_main([cfgC, "-c", ck_at_n] + args)
         except Exception as e:
-            tb = traceback.extract_tb(e.__traceback__)
-            site = next((f"{os.path.basename(fr.filename)}:{fr.name}" for fr in reversed(tb)
-                         if "/torchtree/" in fr.filename), "?")
-            obs["restart_error"] = dict(type=type(e).__name__, msg=str(e)[:200], site=site,
+            obs["restart_error"] = dict(type=type(e).__name__, msg=str(e)[:200], site=_site(e),
                                         before_run=h.entry is None)
     finally:
         h.remove()
     obs["restored"] = h.entry
-    obs["C_saves"] = [os.path.basename(s) for s in h.saves]
+    obs["load"] = h.load
+    obs["C_saves"] = [(os.path.basename(f), e, it) for f, e, it in h.saves]
     if is_opt:
         obs["C_traj"] = [(lab, ps) for lab, ps, _ in read_ckpts(os.path.join(d, "C"), "ck")]
         cks = read_ckpts(os.path.join(d, "C"), "ck")
@@ -594,7 +662,8 @@ def diff_state(a, b, path, types, out):
         db = {tuple(k): v for k, v in b["items"]}
         for k, v in da.items():
             if k in db:
-                diff_state(v, db[k], f"{path}.{k[1]}" if path else str(k[1]), types, out)
+                comp = "[*]" if k[0] == "int" else (f".{k[1]}" if path else str(k[1]))
+                diff_state(v, db[k], path + comp, types, out)
             elif k[0] == "int" and ("str", str(k[1])) in db:
                 out.append(("int-key-to-str", path, f"key {k[1]!r} came back as {str(k[1])!r}"))
                 diff_state(v, db[("str", str(k[1]))], f"{path}[*]", types, out)
@@ -696,8 +765,33 @@ def evaluate(case, obs):
         key = f"C17:restart-raises:{err['site']}:{err['type']}:{err['msg'][:40]}"
         v.append((key, f"restarting {case['name']} from its own checkpoint raises {err['type']}({err['msg']}) in "
                        f"{err['site']}", rp))
+        ld = obs.get("load") or {}
+        if "s1_whatif" in ld and "proj" in obs.get("saved", {}):
+            # with the missing key(s) supplied by the harness: is everything else restored?
+            for cls, f, detail in obj_diffs(obs["saved"]["proj"], ld["s1_whatif"]):
+                k = _wkey_of(case, cls, f)
+                v.append((f"C17:state-not-restored:{cls}:{k}",
+                          f"{case['name']}: even with the missing key(s) {ld['supplied']} supplied, "
+                          f"{cls}.load_state_dict leaves {f} (saved under '{k}') unrestored: {detail}", rp))
         return v, notes
     saved, rest = obs["saved"], obs["restored"]
+    # ---- parameter tensors
+    pa = {p["id"]: p for p in saved["params"]}
+    pb = {p["id"]: p for p in rest["params"]}
+    param_dtype_changed = False
+    for pid in pa:
+        if pid not in pb:
+            v.append((f"C17:parameter-not-restored:missing:{fam}", f"{case['name']}: parameter {pid} missing", rp))
+            continue
+        d = []
+        diff_state(pa[pid], pb[pid], pid, {}, d)
+        for kind, path, detail in d:
+            key = (f"C17:parameter-not-restored:{kind}:spec={_spec_kind(case, pid)}" if kind in ("dtype", "nn")
+                   else f"C17:parameter-not-restored:{kind}:{fam}")
+            param_dtype_changed |= kind == "dtype"
+            explained.append(key)
+            v.append((key, f"{case['name']}: parameter {pid} ({_spec_kind(case, pid)} specification) differs after "
+                           f"the restart ({kind}): {detail}", rp))
     # ---- state_dict() before saving vs after restart (iteration counter: judged on behaviour below)
     diffs = []
     diff_state(saved["state"], rest["state"], "", types, diffs)
@@ -707,28 +801,18 @@ def evaluate(case, obs):
         if kind == "tuple-to-list":
             notes["benign_tuple_to_list"] += 1
             continue
+        if kind == "dtype" and param_dtype_changed and path.startswith("optimizer.state"):
+            notes["consequence_dtype"] = f"{path}: {detail} (torch casts the moments to the parameter's dtype)"
+            continue
         if kind == "int-key-to-str":
             key = f"C17:int-keys-become-strings:{saved['cls']}:{path}"
             what = (f"{case['name']}: after the restart {saved['cls']}.state_dict()['{path}'] is keyed by strings "
-                    f"({detail}); the entries no longer belong to their parameters")
+                    f"({detail}); the entries no longer belong to their parameters / epochs")
         else:
             key = f"C17:state-not-restored:{saved['cls']}:{path}:{kind}"
             what = f"{case['name']}: {saved['cls']}.state_dict() differs after the restart at {path} ({kind}): {detail}"
         explained.append(key)
         v.append((key, what, rp))
-    # ---- parameter tensors
-    pa = {p["id"]: p for p in saved["params"]}
-    pb = {p["id"]: p for p in rest["params"]}
-    for pid in pa:
-        if pid not in pb:
-            v.append((f"C17:parameter-not-restored:{saved['cls']}:missing", f"{case['name']}: parameter {pid} missing", rp))
-            continue
-        d = []
-        diff_state(pa[pid], pb[pid], pid, {}, d)
-        for kind, path, detail in d:
-            key = f"C17:parameter-not-restored:{fam}:{kind}:{_spec_kind(case, pid)}"
-            explained.append(key)
-            v.append((key, f"{case['name']}: parameter {pid} differs after the restart ({kind}): {detail}", rp))
     # ---- the run continued from the checkpoint
     A = dict(_rows(obs["A_traj"]))
     Cr = [r for r in _rows(obs["C_traj"]) if r[0] > 0]
@@ -795,3 +879,660 @@ def _spec_kind(case, pid):
     ks = [k for k in ("full_like", "full", "zeros_like", "zeros", "ones_like", "ones", "eye_like", "eye", "arange")
           if k in spec]
     return (ks[0] if ks else "tensor") + ("+dtype" if "dtype" in spec else "")
+
+
+# --------------------------------------------------------------------------- Python values as model terms (pv)
+# ("none",) ("bool",b) ("int",z) ("float",bits) ("str",s) ("list",[..]) ("tuple",[..]) ("dict",[(key,v)..])
+# ("tensor",dtype,nn,vals) ("param",id,dtype,nn,vals) ("obj",cls,[(field,v)..]);  key = ("int",z) | ("str",s)
+
+def _bits(x):
+    import struct
+    x = float(x)
+    if x != x:
+        return 0x7ff8000000000000
+    return struct.unpack("<q", struct.pack("<d", x))[0]
+
+
+def pv_of(v):
+    torch = _torch()
+    from torchtree.core.abstractparameter import AbstractParameter
+    if v is None:
+        return ("none",)
+    if isinstance(v, bool):
+        return ("bool", v)
+    if isinstance(v, int):
+        return ("int", v)
+    if isinstance(v, float):
+        return ("float", _bits(v))
+    if isinstance(v, str):
+        return ("str", v)
+    if isinstance(v, AbstractParameter):
+        t = v.tensor
+        return ("param", v.id, str(t.dtype), isinstance(t, torch.nn.Parameter), pv_of(t.detach().tolist()))
+    if isinstance(v, torch.Tensor):
+        return ("tensor", str(v.dtype), isinstance(v, torch.nn.Parameter), pv_of(v.detach().tolist()))
+    if isinstance(v, dict):
+        return ("dict", [(("int", k) if isinstance(k, int) and not isinstance(k, bool) else ("str", str(k)), pv_of(x))
+                         for k, x in v.items()])
+    if isinstance(v, tuple):
+        return ("tuple", [pv_of(x) for x in v])
+    if isinstance(v, list) or type(v).__name__ == "deque":
+        return ("list", [pv_of(x) for x in v])
+    return ("str", f"<{type(v).__name__}>")
+
+
+def _cs(s):
+    out = '"' + s.replace('"', '""') + '"'
+    if "Parameter" in s:
+        a, b = s.split("Parameter", 1)
+        return "(" + _cs(a + "Para") + " ++ " + _cs("meter" + b) + ")%string"
+    return out
+
+
+def pv_coq(v):
+    t = v[0]
+    if t == "none":
+        return "PNone"
+    if t == "bool":
+        return f"(PBool {'true' if v[1] else 'false'})"
+    if t in ("int", "float"):
+        return f"({'PInt' if t == 'int' else 'PFloat'} ({v[1]})%Z)"
+    if t == "str":
+        return f"(PStr {_cs(v[1])})"
+    if t in ("list", "tuple"):
+        return f"({'PList' if t == 'list' else 'PTuple'} [" + "; ".join(pv_coq(x) for x in v[1]) + "])"
+    if t == "dict":
+        return "(PDict [" + "; ".join(
+            f"({'KInt (' + str(k[1]) + ')%Z' if k[0] == 'int' else 'KStr ' + _cs(k[1])}, {pv_coq(x)})" for k, x in v[1]) + "])"
+    if t == "tensor":
+        return f"(PTensor {_cs(v[1])} {'true' if v[2] else 'false'} {pv_coq(v[3])})"
+    if t == "param":
+        return f"(PParam {_cs(v[1])} {_cs(v[2])} {'true' if v[3] else 'false'} {pv_coq(v[4])})"
+    if t == "obj":
+        return f"(PObj {_cs(v[1])} [" + "; ".join(f"({_cs(f)}, {pv_coq(x)})" for f, x in v[2]) + "])"
+    raise ValueError(t)
+
+
+def pv_parse(z):
+    """inverse of M_ckpt.show_pv / show_opt on a list of ints -> pv or None"""
+    pos = [0]
+
+    def nxt():
+        pos[0] += 1
+        return z[pos[0] - 1]
+
+    def s():
+        n = nxt()
+        return "".join(chr(nxt()) for _ in range(n))
+
+    def go():
+        t = nxt()
+        if t == -1:
+            return None
+        if t == 0:
+            return ("none",)
+        if t == 1:
+            return ("bool", bool(nxt()))
+        if t == 2:
+            return ("int", nxt())
+        if t == 3:
+            return ("float", nxt())
+        if t == 4:
+            return ("str", s())
+        if t in (5, 6):
+            n = nxt()
+            return ("list" if t == 5 else "tuple", [go() for _ in range(n)])
+        if t == 7:
+            n = nxt()
+            items = []
+            for _ in range(n):
+                kt = nxt()
+                k = ("int", nxt()) if kt == 0 else ("str", s())
+                items.append((k, go()))
+            return ("dict", items)
+        if t == 8:
+            dt = s()
+            nn = bool(nxt())
+            return ("tensor", dt, nn, go())
+        if t == 9:
+            i = s()
+            dt = s()
+            nn = bool(nxt())
+            return ("param", i, dt, nn, go())
+        if t == 10:
+            c = s()
+            n = nxt()
+            return ("obj", c, [(s(), go()) for _ in range(n)])
+        raise ValueError(f"bad tag {t}")
+    r = go()
+    if pos[0] != len(z):
+        raise ValueError("trailing output")
+    return r
+
+
+def pv_canon(v, tuples_as_lists=False):
+    """order-insensitive dictionaries; optionally tuples = lists"""
+    if v is None:
+        return None
+    t = v[0]
+    if t in ("list", "tuple"):
+        return ("list" if tuples_as_lists else t, [pv_canon(x, tuples_as_lists) for x in v[1]])
+    if t == "dict":
+        return ("dict", sorted(((k, pv_canon(x, tuples_as_lists)) for k, x in v[1]), key=lambda p: repr(p[0])))
+    if t == "tensor":
+        return (t, v[1], v[2], pv_canon(v[3], tuples_as_lists))
+    if t == "param":
+        return (t, v[1], v[2], v[3], pv_canon(v[4], tuples_as_lists))
+    if t == "obj":
+        return (t, v[1], [(f, pv_canon(x, tuples_as_lists)) for f, x in v[2]])
+    return v
+
+
+def pv_diff(a, b, path=""):
+    """first difference between two pv (canonical) -> text or None"""
+    if a is None or b is None:
+        return None if a == b else f"{path}: {'failure' if a is None else 'value'} vs {'failure' if b is None else 'value'}"
+    if a[0] != b[0]:
+        return f"{path}: {a[0]} vs {b[0]}"
+    t = a[0]
+    if t in ("list", "tuple"):
+        if len(a[1]) != len(b[1]):
+            return f"{path}: length {len(a[1])} vs {len(b[1])}"
+        for i, (x, y) in enumerate(zip(a[1], b[1])):
+            d = pv_diff(x, y, f"{path}[{i}]")
+            if d:
+                return d
+        return None
+    if t == "dict":
+        ka, kb = [k for k, _ in a[1]], [k for k, _ in b[1]]
+        if ka != kb:
+            return f"{path}: keys {ka[:6]} vs {kb[:6]}"
+        for (k, x), (_, y) in zip(a[1], b[1]):
+            d = pv_diff(x, y, f"{path}.{k[1]}")
+            if d:
+                return d
+        return None
+    if t == "obj":
+        if a[1] != b[1] or [f for f, _ in a[2]] != [f for f, _ in b[2]]:
+            return f"{path}: object {a[1]}{[f for f, _ in a[2]]} vs {b[1]}{[f for f, _ in b[2]]}"
+        for (f, x), (_, y) in zip(a[2], b[2]):
+            d = pv_diff(x, y, f"{path}.{f}")
+            if d:
+                return d
+        return None
+    if t == "tensor":
+        if a[1:3] != b[1:3]:
+            return f"{path}: tensor {a[1:3]} vs {b[1:3]}"
+        return pv_diff(a[3], b[3], path)
+    if t == "param":
+        if a[1:4] != b[1:4]:
+            return f"{path}: parameter {a[1:4]} vs {b[1:4]}"
+        return pv_diff(a[4], b[4], path)
+    return None if a == b else f"{path}: {a} vs {b}"
+
+
+# --------------------------------------------------------------------------- projection of live objects
+
+def _get_path(obj, path):
+    cur = obj
+    for part in path.split("."):
+        if cur is None or not hasattr(cur, part):
+            return None
+        cur = getattr(cur, part)
+    return cur
+
+
+def project(obj, info):
+    """the attributes of a live object named by its class table, as a PObj (children recursively)"""
+    tables = {t["name"]: t for t in info["tables"]}
+    name = type(obj).__name__
+    t = tables.get(name)
+    if t is None:
+        return ("str", f"<no table for {name}>")
+    if t["delegate"]:
+        f = t["delegate"][0]
+        return ("obj", name, [(f, pv_of(getattr(obj, f).state_dict()))])
+    fields = []
+    for key, f, mode, guard in t["writes"]:
+        val = _get_path(obj, f)
+        if mode == "WChild":
+            pvv = ("none",) if val is None else project(val, info)
+        elif mode == "WChildren":
+            pvv = ("list", [project(c, info) for c in (val or [])])
+        elif mode.startswith("(WExternal"):
+            pvv = ("none",) if val is None else pv_of(val.state_dict())
+        else:
+            pvv = pv_of(val)
+        fields.append((f, pvv))
+    return ("obj", name, fields)
+
+
+_INFO = {}
+
+
+def obj_diffs(a, b, out=None):
+    """attribute-level differences between two projections -> [(class, field, detail)]"""
+    out = [] if out is None else out
+    a, b = pv_canon(a, True), pv_canon(b, True)
+
+    def go(x, y):
+        if x[0] == "obj" and y[0] == "obj" and x[1] == y[1]:
+            for (f, u), (_, w) in zip(x[2], y[2]):
+                if u[0] == "obj" or (u[0] == "list" and u[1] and u[1][0][0] == "obj"):
+                    if u[0] == "obj":
+                        go(u, w)
+                    elif w[0] == "list" and len(w[1]) == len(u[1]):
+                        for c, d in zip(u[1], w[1]):
+                            go(c, d)
+                    else:
+                        out.append((x[1], f, "children differ"))
+                else:
+                    d = pv_diff(u, w, f)
+                    if d:
+                        out.append((x[1], f, d))
+        elif x != y:
+            out.append((x[1] if x[0] == "obj" else "?", "", "objects differ"))
+    go(a, b)
+    return out
+
+
+def _wkey_of(case, cls, field):
+    for t in _INFO.get("tables", []):
+        if t["name"] == cls:
+            for key, f, mode, guard in t["writes"]:
+                if f == field:
+                    return key
+    return field
+
+
+# --------------------------------------------------------------------------- sync / Coq side
+
+HEADER = ("From Coq Require Import List String ZArith. Import ListNotations.\n"
+          "From TT Require Import M_ckpt G_state.\nOpen Scope string_scope.\nOpen Scope list_scope.\n")
+
+# which case family exercises an attribute that a class mutates but does not save
+REPRO = {("MassMatrixAdaptor", "_values"): "mcmc:hmc[MassMatrixAdaptor(variance_window)]",
+         ("MassMatrixAdaptor", "variance_estimator2"): "mcmc:hmc[MassMatrixAdaptor(swap_every)]"}
+# which observed finding a table-level failure of an external (torch) object predicts
+EXT_KEYS = {("Optimizer", "optimizer"): "C17:int-keys-become-strings:Optimizer:optimizer.state",
+            ("Scheduler", "scheduler"): "C17:int-keys-become-strings:Optimizer:scheduler.milestones"}
+
+
+def sync():
+    try:
+        txt, info = t5_state.translate(C.REPO)
+    except t5_state.TranslateError as e:
+        return False, f"T5 translator: {e}"
+    except Exception as e:      # a parse problem must not pass silently either
+        return False, f"T5 translator crashed: {type(e).__name__}: {e}"
+    with C.CoqLock():
+        C.write_if_changed(os.path.join(C.COQ, "gen", "G_state.v"), txt)
+    _INFO.clear()
+    _INFO.update(info)
+    return True, info
+
+
+def _ident(name):
+    return "".join(ch if ch.isalnum() else "_" for ch in name)
+
+
+def _take_str(z, i):
+    n = z[i]
+    return "".join(chr(c) for c in z[i + 1:i + 1 + n]), i + 1 + n
+
+
+def _take_strs(z, i):
+    n = z[i]
+    i += 1
+    out = []
+    for _ in range(n):
+        x, i = _take_str(z, i)
+        out.append(x)
+    return out, i
+
+
+def table_reports(info):
+    """Evaluate the verified checker on the regenerated tables (vm_compute)."""
+    exprs = [f"show_table_report tbl_{_ident(t['name'])}" for t in info["tables"]]
+    exprs += [f"[show_bool (loop_ok loop_{_ident(l['name'])}); show_bool (cond_ok loop_{_ident(l['name'])})]"
+              for l in info["loops"]]
+    exprs += ["[show_bool (params_ok upd_kept upd_copied penc_keys)]"]
+    res = C.run_cases(PID + "_tables", HEADER, exprs, shard=len(exprs), rtype="Z")
+    reps = {}
+    for t, z in zip(info["tables"], res):
+        name, i = _take_str(z, 0)
+        keys_ok, fields_ok = bool(z[i]), bool(z[i + 1])
+        bad_r, i = _take_strs(z, i + 2)
+        bad_w, i = _take_strs(z, i)
+        unc, i = _take_strs(z, i)
+        wkeys, i = _take_strs(z, i)
+        assert name == t["name"] and i == len(z), (name, t["name"])
+        reps[name] = dict(keys_ok=keys_ok, fields_ok=fields_ok, bad_reads=bad_r, bad_writes=bad_w,
+                          uncovered=unc, wkeys=wkeys)
+    nT = len(info["tables"])
+    loops = {l["name"]: dict(loop_ok=bool(z[0]), cond_ok=bool(z[1]))
+             for l, z in zip(info["loops"], res[nT:nT + len(info["loops"])])}
+    return reps, loops, bool(res[-1][0])
+
+
+def predicted_findings(info, reps, loops, params_ok):
+    """table-level failures -> the finding each one predicts on the real code: [(key, what)]"""
+    out = []
+    for t in info["tables"]:
+        r = reps[t["name"]]
+        X = t["name"]
+        for k in r["bad_reads"]:
+            rd = next(e for e in t["reads"] if e[0] == k)
+            if k not in r["wkeys"]:
+                out.append((f"C17:restart-raises:{X}.load_state_dict:KeyError:'{k}'",
+                            f"{X}.load_state_dict reads key '{k}' which {X}.state_dict never writes"))
+            elif rd[2].startswith("(RExternal"):
+                out.append((EXT_KEYS.get((X, rd[1]), f"C17:int-keys-become-strings:{X}:{rd[1]}"),
+                            f"{X}.load_state_dict hands the JSON-decoded state of the torch object '{rd[1]}' back "
+                            f"without restoring its integer keys"))
+            else:
+                out.append((f"C17:table:{X}:read-is-not-inverse-of-write:{k}",
+                            f"{X}: key '{k}' is not read back into the attribute / by the decoding it was written with"))
+        if t["delegate"] and not r["keys_ok"]:
+            out.append((EXT_KEYS.get((X, t["delegate"][0]), f"C17:int-keys-become-strings:{X}:{t['delegate'][0]}"),
+                        f"{X}.load_state_dict hands the JSON-decoded state of the torch object "
+                        f"'{t['delegate'][0]}' back without restoring its integer keys"))
+        bw_fields = {e[1] for e in t["writes"] if e[0] in r["bad_writes"]}
+        for k in r["bad_writes"]:
+            out.append((f"C17:state-not-restored:{X}:{k}", f"{X}.state_dict writes key '{k}' that load_state_dict never reads"))
+        heads = []
+        for f in r["uncovered"]:
+            if f in bw_fields:
+                continue
+            h = f.split(".")[0]
+            if h not in heads:
+                heads.append(h)
+        for h in heads:
+            out.append((f"C17:state-not-saved:{X}:{h}",
+                        f"{X} mutates self.{h} while running but neither saves nor restores it"))
+        if not t["delegate"] and not r["keys_ok"] and not r["bad_reads"] and not r["bad_writes"]:
+            out.append((f"C17:table:{X}:structure", f"{X}: a key or an attribute is used twice, or a key is called 'type'"))
+    for name, l in loops.items():
+        if not l["loop_ok"]:
+            out.append((f"C17:resume-repeats-iteration:{name}",
+                        f"{name}: the iteration counter is saved before it is incremented and loaded as is"))
+        if not l["cond_ok"]:
+            out.append((f"C17:checkpoint-condition:{name}", f"{name}: the checkpoint block does not fire at multiples of the frequency"))
+    if not params_ok:
+        out.append(("C17:parameter-not-restored:dtype:spec=", "update_parameters does not copy 'dtype' / 'nn' from the checkpoint entry"))
+    return out
+
+
+def loop_of(info, case):
+    return "loop_" + _ident(loop_name(case))
+
+
+# --------------------------------------------------------------------------- run
+
+def run(tier, seed, replay=None):
+    rep = C.Report(PID, tier, seed)
+    rep.trusted = C.COMMON_TRUSTED + [
+        "translator T5 (harness/translate/t5_state.py, python ast, fail-closed) incl. its two hand-written lists: "
+        "which attributes hold external torch objects, and which mutated attributes are owned/checkpointed by "
+        "another object or are scratch (each printed with its reason in gen/G_state.v); mutations through calls "
+        "other than the listed mutator methods are not seen",
+        "model/M_ckpt.v: Python value model (float repr / float32<->double conversions round-trip exactly — "
+        "validated on every recorded state), torch.optim layout (which entries are integer-keyed), "
+        "torch's own load_state_dict restoring an identical dictionary identically",
+        "harness hooks on Optimizer/MCMC run(), save_full_state(), load_state_dict() (observation only; RNG reseeded "
+        "at the checkpoint and at the restart for the stochastic MCMC runs: the checkpoint does not hold RNG state)"]
+    rep.assumptions = [
+        "a restart uses the same specification and --dtype as the interrupted run",
+        "deterministic step function: the torch RNG state is not part of a checkpoint (MCMC cases reseed it identically "
+        "in both runs at the interruption point)",
+        "not covered: state of convergence monitors (StanVariationalConvergence), logger files (reopened with 'w'), "
+        "CUDA devices, SparseAdam / Muon / ReduceLROnPlateau / SequentialLR / ChainedScheduler"]
+    os.makedirs(WORK, exist_ok=True)
+
+    ok_sync, info = sync()
+    cases = make_cases(tier, seed)
+    if replay:
+        cases = [json.load(open(replay))["replay"]["case"]]
+    # ---- the real code, through main()
+    t0 = time.time()
+    obs = []
+    for c in cases:
+        try:
+            obs.append(run_case(c, info if ok_sync else None))
+        except Exception as e:          # harness trouble must not look like a pass
+            obs.append(dict(name=c["name"], plain_run_error=f"harness: {type(e).__name__}: {e}",
+                            trace=traceback.format_exc()[-1500:]))
+    rep.timings["impl"] = round(time.time() - t0, 2)
+    evals = [evaluate(c, o) for c, o in zip(cases, obs)]
+
+    state = dict(reps=None)
+
+    def observed():
+        """the property evaluated on the implementation's outputs, keys canonicalised"""
+        found = {}
+        unc_heads = {}
+        if state["reps"]:
+            reps = state["reps"][0]
+            for (X, h), fam in REPRO.items():
+                if X in reps and any(f.split(".")[0] == h for f in reps[X]["uncovered"]):
+                    unc_heads[fam] = (X, h)
+        for c, (vs, notes) in zip(cases, evals):
+            for key, what, rp in vs:
+                if key.startswith("C17:resumed-trajectory-differs:") and c["family"] in unc_heads:
+                    X, h = unc_heads[c["family"]]
+                    key = f"C17:state-not-saved:{X}:{h}"
+                    what = f"{X} mutates self.{h} while running but state_dict() does not save it — " + what
+                found.setdefault(key, (key, what, rp))
+        return list(found.values())
+
+    def search():
+        return observed()
+
+    if not ok_sync:
+        rep.proof = dict(obligations=1, discharged=0, axioms={}, theorems=["T5 translation"], ok=False)
+        fs = search()
+        for f in fs:
+            rep.violation(*f)
+        rep.violation("C17:translator-failed", str(info)[:400], dict(error=str(info)), False)
+        rep.rule = "translator failed: only the direct comparison on the implementation ran"
+        for c, o in zip(cases, obs):
+            rep.case(dict(name=c["name"], seed=c["seed"]), nontrivial="saved" in o)
+        return rep.finish()
+
+    # ---- the checker on the regenerated tables (needed to name findings), then the proofs
+    t0 = time.time()
+    C.coq_make(["model/M_ckpt.vo", "gen/G_state.vo"])
+    try:
+        state["reps"] = table_reports(info)
+    except RuntimeError as e:
+        rep.violation("C17:model-eval-failed:tables", str(e)[:300], dict(error=str(e)[-2000:]), False)
+    rep.timings["tables"] = round(time.time() - t0, 2)
+    proved = C.handle_proof(rep, PID, search)
+    if not proved and rep.proof and not rep.proof.get("axioms"):
+        # the theorems before the failing one were checked: keep their Print Assumptions
+        import re
+        src = C.strip_coq_comments(open(os.path.join(C.COQ, "prop", f"{PID}.v")).read())
+        names = re.findall(r"Print Assumptions\s+([A-Za-z0-9_'.]+)", src)
+        blocks = re.findall(r"(?m)^(Closed under the global context|Axioms:)", rep.proof.get("log", ""))
+        rep.proof["axioms"] = {n: ([] if b.startswith("Closed") else ["<see log>"]) for n, b in zip(names, blocks)}
+    obs_f = observed()
+    for f in obs_f:
+        rep.violation(*f)
+    # every table-level failure must be reproduced on the real code
+    predicted = predicted_findings(info, *state["reps"]) if state["reps"] else []
+    obs_keys = [k for k, _, _ in obs_f]
+    for key, what in predicted:
+        if not any(k == key or (key.endswith("spec=") and k.startswith(key)) for k in obs_keys):
+            rep.violation("C17:unreproduced:" + key, what + " — not reproduced by any driven configuration",
+                          dict(predicted=key), False)
+    if not proved and not predicted and not obs_f:
+        pass   # handle_proof has filed the proof-broken violation
+
+    # ---- correspondence: the model's executable definitions on the recorded states
+    t0 = time.time()
+    exprs, index = [], []
+    for ci, (c, o) in enumerate(zip(cases, obs)):
+        sv = o.get("saved") or {}
+        if "proj" not in sv:
+            continue
+        O = pv_coq(sv["proj"])
+        exprs.append(f"show_opt (save 4 all_tables {O})")
+        index.append((ci, "save"))
+        ld = o.get("load")
+        if ld and "s0" in ld:
+            exprs.append(f"show_opt (checkpoint_roundtrip 4 all_tables {O} {pv_coq(ld['s0'])})")
+            index.append((ci, "restore"))
+    loop_exprs = {}
+    for ci, (c, o) in enumerate(zip(cases, obs)):
+        if "saved" not in o:
+            continue
+        L = loop_of(info, c)
+        N, K = c["N"], c["K"]
+        freqA = 1 if c["algo"] == "optimizer" else N
+        loop_exprs.setdefault((L, 1, N + K, freqA), []).append((ci, "A"))
+        if o.get("restored"):
+            freqC = 1 if c["algo"] == "optimizer" else 10 ** 6
+            loop_exprs.setdefault((L, o["restored"]["epoch"], N + K, freqC), []).append((ci, "C"))
+            loop_exprs.setdefault((L, "resume", N), []).append((ci, "resume"))
+    loop_keys = list(loop_exprs)
+    for k in loop_keys:
+        if k[1] == "resume":
+            exprs.append(f"[resume_epoch {k[0]} ({k[2]})%Z]")
+        else:
+            exprs.append(f"show_events (run_events {k[0]} {C.natlit(k[2] + 2)} ({k[1]})%Z ({k[2]})%Z ({k[3]})%Z)")
+        index.append((k, "loop"))
+    dt_exprs = {}
+    for ci, (c, o) in enumerate(zip(cases, obs)):
+        if not o.get("restored") or "saved" not in o:
+            continue
+        default = "torch." + c["dtype"]
+        cfg = config_for(c, "ck", "log", 1, 1)
+        for p in o["saved"]["params"]:
+            spec = _find_spec(cfg, p["id"]) or {}
+            sd = spec.get("dtype")
+            inferred = default if any(isinstance(x, str) for x in p["v"]) else "torch.int64"
+            k = (sd, inferred, p["dtype"])
+            dt_exprs.setdefault(k, []).append((ci, p["id"]))
+    dt_keys = list(dt_exprs)
+    for sd, inferred, saved_dt in dt_keys:
+        spec_t = f'(Some "{sd}")' if sd else "None"
+        exprs.append(f'show_str (restored_dtype upd_kept upd_copied {spec_t} "{inferred}" "{saved_dt}")')
+        index.append(((sd, inferred, saved_dt), "dtype"))
+    res = []
+    try:
+        res = C.run_cases(PID, HEADER, exprs, shard=max(4, len(exprs) // 16 + 1), rtype="Z")
+    except RuntimeError as e:
+        rep.violation("C17:model-eval-failed", str(e)[:300], dict(error=str(e)[-2000:]), False)
+    rep.timings["model_eval"] = round(time.time() - t0, 2)
+
+    mismatches = []
+    validated = 0
+    for (who, kind), z in zip(index, res):
+        if kind in ("save", "restore"):
+            c, o = cases[who], obs[who]
+            vs, notes = evals[who]
+            model = pv_parse(z)
+            if kind == "save":
+                d = pv_diff(pv_canon(model), pv_canon(o["saved"]["sd"]), "state_dict()")
+                what = f"{c['name']}: model save vs real state_dict(): {d}"
+            else:
+                ld = o["load"]
+                real = ld.get("s1") if "error" not in ld else None
+                d = pv_diff(pv_canon(model, True), pv_canon(real, True), "after load_state_dict")
+                what = (f"{c['name']}: model restore(save) vs the object after the real load_state_dict"
+                        f"{' (which raised ' + ld['error']['type'] + ')' if 'error' in ld else ''}: {d}")
+                if d and any(k.startswith("C17:parameter-not-restored:dtype") for k, _, _ in vs):
+                    notes["model_skipped"] = "a parameter changed dtype: torch casts the moments accordingly"
+                    d = None
+            validated += 1
+            if d:
+                mismatches.append((f"C17:model-impl-differ:{kind}:{c['family']}", what, dict(case=c)))
+        elif kind == "loop":
+            k = who
+            for ci, which in loop_exprs[k]:
+                c, o = cases[ci], obs[ci]
+                validated += 1
+                if which == "resume":
+                    if z[0] != o["restored"]["epoch"]:
+                        mismatches.append((f"C17:model-impl-differ:resume-epoch:{loop_name(c)}",
+                                           f"{c['name']}: model restarts at {z[0]}, implementation at "
+                                           f"{o['restored']['epoch']}", dict(case=c)))
+                    continue
+                ev = [(z[i], z[i + 1]) for i in range(0, len(z), 2)]
+                saves = o["A_saves"] if which == "A" else o["C_saves"]
+                traj = o["A_traj"] if which == "A" else o["C_traj"]
+                m_saved = [s_ for _, s_ in ev if s_ != -1]
+                r_saved = [it for _, _, it in saves]
+                bad = None
+                if m_saved != r_saved:
+                    bad = f"checkpoints hold iteration {r_saved[:4]}..., model {m_saved[:4]}..."
+                if c["algo"] == "mcmc":
+                    labels = [l for l, _ in traj if l > 0]
+                    if labels != [l for l, _ in ev] and not (o.get("restart_error") and which == "C"):
+                        bad = f"iterations executed {labels[:3]}..{labels[-1:]}, model {[l for l, _ in ev][:3]}.."
+                if bad:
+                    mismatches.append((f"C17:model-impl-differ:loop:{loop_name(c)}",
+                                       f"{c['name']} run {which}: {bad}", dict(case=c)))
+        elif kind == "dtype":
+            model_dt, _ = _take_str(z, 0)
+            for ci, pid in dt_exprs[who]:
+                c, o = cases[ci], obs[ci]
+                real = next((p["dtype"] for p in o["restored"]["params"] if p["id"] == pid), None)
+                validated += 1
+                if real != model_dt:
+                    mismatches.append((f"C17:model-impl-differ:parameter-dtype:{c['family']}",
+                                       f"{c['name']}: parameter {pid} restored as {real}, model {model_dt}", dict(case=c)))
+    seen = set()
+    for key, what, rp in mismatches:
+        if key in seen:
+            continue
+        seen.add(key)
+        rp = dict(rp, broken="correspondence M_ckpt/G_state vs implementation")
+        rep.violation(key, what, rp, False)
+
+    # ---- bookkeeping
+    dist = {}
+    for c, o, (vs, notes) in zip(cases, obs, evals):
+        fam = c["family"].split(":")[0] + "/" + c["dtype"]
+        dist[fam] = dist.get(fam, 0) + 1
+        sv = o.get("saved") or {}
+        rep.case(dict(name=c["name"], seed=c["seed"], pseed=c["pseed"], N=c["N"], K=c["K"]),
+                 nontrivial="saved" in o and c["N"] >= 2 and c["K"] >= 2,
+                 sample=dict(case=c["name"], iterations_before=c["N"], iterations_after=c["K"],
+                             restart_error=o.get("restart_error"),
+                             findings=[k for k, _, _ in vs], consequence=notes.get("consequence")))
+    tuple_notes = sum(n.get("benign_tuple_to_list", 0) for _, n in evals)
+    rep.rule = (f"{len(cases)} configurations driven through torchtree.torchtree.main: every torch optimiser "
+                f"(15 settings) alone and with a rotating scheduler, every scheduler expressible in the JSON "
+                f"specification (12) with Adam, parameter groups, an explicit-float32 + full_like parameter, "
+                f"float32 runs; MCMC with every operator (Scaler, SlidingWindow, Dirichlet, GMRF block updating on the "
+                f"CLI's skygrid configuration, HMC) and every adaptor combination (AdaptiveStepSize ±acceptance rate, "
+                f"DualAveragingStepSize, MassMatrixAdaptor diag/dense/variance_window/swap_every, pairs), "
+                f"float32/float64; interruption point N and horizon K drawn from the seed; non-trivial = checkpoint "
+                f"written after >= 2 iterations and >= 2 iterations remain; state compared exactly (hex floats), "
+                f"trajectories with rtol 1e-12 (float64) / 1e-6 (float32); tuple->list (betas) counted as benign: "
+                f"{tuple_notes} occurrences")
+    rep.extra = dict(input_distribution=dist, traces_validated_against_impl=validated,
+                     model_undefined=0,
+                     translator_units=[f"{t['name']} ({t['file']})" for t in info["tables"]]
+                     + [l["name"] for l in info["loops"]] + ["update_parameters", "ParameterEncoder"],
+                     table_reports=state["reps"][0] if state["reps"] else None,
+                     loop_reports=state["reps"][1] if state["reps"] else None,
+                     not_driven=["SparseAdam", "Muon", "ReduceLROnPlateau", "SequentialLR", "ChainedScheduler"])
+    return rep.finish()
+
+
+def _find_spec(o, pid):
+    if isinstance(o, dict):
+        if o.get("id") == pid and str(o.get("type", "")).endswith("Parameter"):
+            return o
+        for x in o.values():
+            r = _find_spec(x, pid)
+            if r:
+                return r
+    elif isinstance(o, list):
+        for x in o:
+            r = _find_spec(x, pid)
+            if r:
+                return r
+    return None
